@@ -56,7 +56,9 @@ XML_ONLY_ATOMS = {'Integer(sub_name)', 'Unicode(sub_name)'}
 ATOM_CLASSES = {'Q': {'n': 'Q', 'fields': [['q', ['p', 'Integer', {}]], ['qs', ['p', 'Unicode', {}]]]}}
 
 
-ENUMS = {'Color': ['red', 'green', 'dark blue']}
+# (a second enumeration, declared later and never used in a signature, shares a member name with the first: the members of
+# one enumeration are its own)
+ENUMS = {'Color': ['red', 'green', 'dark blue'], 'Tint': ['green', 'pale']}
 
 
 def atom_values(t, tier='quick', limit=None):
